@@ -15,7 +15,7 @@ REPO = os.environ.get("VERIF_REPO", "/repo")
 sys.path.insert(0, REPO)
 
 from pyvc.engine import Executor
-from pyvc import registry as R, solve, replay as RP, extract as X
+from pyvc import registry as R, solve, replay as RP, extract as X, objreplay as OR
 from pyvc.state import VCError, Obligation
 import z3
 import props as PROPS
@@ -49,6 +49,7 @@ def main():
     try:
         out.deductive()
         if not a.no_bounded: out.bounded()
+        if not a.only and (a.tier == "thorough" or cfg.get("crosscheck")): out.crosscheck()
     except Exception:
         traceback.print_exc()
         out.fatal.append("checker crash: " + traceback.format_exc()[-1500:])
@@ -216,6 +217,15 @@ class Run:
                     info = RP.replay_model(ex, c, r.model or {})
                 except Exception as e:
                     info = {"verdict": "no-native-replay", "detail": "replay error: %s" % e, "inputs": None, "native": None}
+                if info["verdict"] == "no-native-replay":
+                    # inputs are objects: rebuild them from the pre-state heap of the model and call the real method on them
+                    try:
+                        info2 = OR.replay_objects(ex, c, r, solve.solve_all)
+                        if info2["verdict"] != "no-native-replay" or not info.get("detail"): info = info2
+                        else: info["detail"] += " | " + info2.get("detail", "")
+                    except Exception as e:
+                        info["detail"] += " | object replay error: %s: %s" % (type(e).__name__, str(e)[:200])
+                info = RP.align(r.ob.kind, info)
                 if best is None or (info["verdict"] == "violates" and best[1]["verdict"] != "violates"): best = (r, info)
                 if info["verdict"] == "violates": break
             r, info = best
@@ -255,6 +265,21 @@ class Run:
                 self.violations.append({"what": f["what"], "replay": path, "failing_input_found": True, "detail": f["key"]})
             for u in res.get("undecided", []): self.undecided.append(u)
 
+    def crosscheck(self):
+        """CPython cross-check of the encoding itself (selftest/semantics.py): a disagreement makes every verdict of this run untrustworthy"""
+        import subprocess
+        env = dict(os.environ); env.pop("VERIF_REPO", None)
+        r = subprocess.run([sys.executable, "-W", "ignore", os.path.join(HERE, "selftest", "semantics.py")], capture_output=True, text=True, env=env, timeout=900)
+        try: doc = json.loads(r.stdout)
+        except Exception:
+            self.fatal.append("engine cross-check did not run: " + (r.stderr or r.stdout)[-300:]); return
+        self.ev["crosscheck"] = {k: doc[k] for k in ("snippets", "point_contracts", "obligations", "discharged", "agree", "agree_implicit_exception_flagged",
+                                                     "conservative", "mismatches", "vacuous", "undecided", "unsupported_snippets")}
+        if doc["mismatches"] or doc["vacuous"]:
+            self.fatal.append("the pyvc encoding disagrees with CPython on %d concrete run(s), e.g. %s" % (len(doc["mismatches"]) + len(doc["vacuous"]), (doc["mismatches"] or doc["vacuous"])[0]))
+        elif doc["agree"] + doc["agree_implicit_exception_flagged"] < 250:
+            self.fatal.append("engine cross-check shrank to %d agreeing runs" % (doc["agree"] + doc["agree_implicit_exception_flagged"]))
+
     # ---------------------------------------------------------------- report
     def finish(self, wall):
         ev = self.ev
@@ -290,6 +315,7 @@ class Run:
             "inlined_from_real_source": ev["inlined"],
             "samples": ev["samples"] + [s for b in ev["bounded"] for s in b.get("samples", [])][:6],
             "bounded_standins": ev["bounded"],
+            "engine_crosscheck_vs_cpython": ev.get("crosscheck", "not run in this tier (runs in the thorough tier and in the quick tier of C17/C20)"),
             "evaluations": ev["obligations"] + bounded_evals,
             "distinct_nontrivial": ev["obligations"] + sum(b.get("distinct_nontrivial", 0) for b in ev["bounded"]),
             "rule": "one evaluation = one proof obligation (distinct by function, program point and path) or one bounded case as described per stand-in",
@@ -366,6 +392,16 @@ def do_replay(pid, path):
     bad = [r for r in res if r.status == "sat"]
     print("re-solved %d obligation(s) of kind %s: %d refuted" % (len(target), doc["obligation"].split("#")[1], len(bad)))
     if bad:
+        for r in bad[:3]:
+            try:
+                info = RP.replay_model(ex, c, r.model or {})
+                if info["verdict"] == "no-native-replay": info = OR.replay_objects(ex, c, r, solve.solve_all)
+                info = RP.align(r.ob.kind, info)
+            except Exception as e:
+                info = {"verdict": "no-native-replay", "detail": str(e)}
+            if info["verdict"] == "violates":
+                print("native replay on %s -> %s: %s" % (info.get("inputs"), info.get("native"), info.get("detail", "")[:300]))
+                print("VIOLATION property=%s replay=%s" % (pid, path)); return 1
         print("VIOLATION property=%s replay=%s no-failing-input-found" % (pid, path)); return 1
     return 0
 
